@@ -13,6 +13,7 @@ import EvalexprVerif.Generated.FnOperator
 import EvalexprVerif.Translate.Lemmas
 import EvalexprVerif.Proofs.AgreeFnError
 import EvalexprVerif.Proofs.AgreeFnValue
+import EvalexprVerif.Proofs.AgreeFnNumeric
 
 namespace Evalexpr.AgreeFn
 open Evalexpr
@@ -23,12 +24,18 @@ macro "rs_exec" : tactic =>
       Evalexpr.Operator.evalPure, Evalexpr.callFunction, Evalexpr.Operator.assignBase,
       fn_expect_operator_argument_amount_agree, fn_expect_number_or_string_agree,
       fn_Value_as_string_agree, fn_Value_as_int_agree, fn_Value_as_number_agree, fn_Value_as_boolean_agree,
+      fn_i64_checked_add_agree, fn_i64_checked_sub_agree, fn_i64_checked_mul_agree, fn_i64_checked_div_agree,
+      fn_i64_checked_rem_agree, fn_i64_checked_neg_agree, fn_f64_pow_agree,
       Rs.M.run_ctx_call_function_bind, List.getLast?_cons, wrongArgs, *])
 
 /-- the arms of `Operator::eval` that do not look at the context -/
 theorem eval_pure_arms (op : Operator) (args : List Value) (s : St)
     (h1 : ∀ id, op ≠ .varRead id) (h2 : ∀ id, op ≠ .fn id) :
     Gen.Operator.eval op args s = Evalexpr.Operator.eval op args s := by
+  -- the translated callees that are not computable by `rfl` on symbolic arguments are replaced by the Model's first
+  unfold Gen.Operator.eval
+  try simp only [fn_i64_checked_add_agree, fn_i64_checked_sub_agree, fn_i64_checked_mul_agree, fn_i64_checked_div_agree,
+    fn_i64_checked_rem_agree, fn_i64_checked_neg_agree, fn_f64_pow_agree]
   cases op <;> rcases args with _ | ⟨a, _ | ⟨b, _ | ⟨c, rest⟩⟩⟩ <;>
     first
     | rfl
